@@ -48,6 +48,7 @@ const P_CFGS: [usize; 6] = [0, 1, 2, 3, 8, 16];
 const ITER_LIMIT: u64 = 9;
 
 struct Net {
+    seed: u64,
     dir: PathBuf,
     n_grid: usize,
     sink_only: usize, // vertex with an outgoing edge only: unreachable as a destination
@@ -118,7 +119,14 @@ fn write_network(dir: &Path, seed: u64) -> Net {
     std::fs::write(dir.join("speeds_grid1.csv"), s1).unwrap();
     std::fs::write(dir.join("grades_grid0.txt"), g0).unwrap();
     std::fs::write(dir.join("grades_grid1.txt"), g1).unwrap();
-    Net { dir: dir.to_path_buf(), n_grid, sink_only: n_grid, isolated: n_grid + 1 }
+    Net { seed, dir: dir.to_path_buf(), n_grid, sink_only: n_grid, isolated: n_grid + 1 }
+}
+
+/// the traversal output plugin's route format of an application variant: every format occurs
+/// (four of the five per run, all five over seeds 1..3)
+const ROUTE_FORMATS: [&str; 5] = ["edge_id", "wkt", "json", "geo_json", "wkb"];
+fn route_format(net: &Net, lb: bool, iter: bool) -> &'static str {
+    ROUTE_FORMATS[(lb as usize + 2 * iter as usize + net.seed as usize) % 5]
 }
 
 fn app_toml(net: &Net, p_cfg: usize, lb: bool, iter_limit: bool) -> String {
@@ -161,13 +169,14 @@ input_plugins = [
 ]
 output_plugins = [
   {{ type = "summary" }},
-  {{ type = "traversal", route = "edge_id", geometry_input_file = "{d}/geoms.txt" }},
+  {{ type = "traversal", route = "{rf}", geometry_input_file = "{d}/geoms.txt" }},
 ]
 "#,
         p = p_cfg,
         d = d,
         term = term,
-        lbp = lbp
+        lbp = lbp,
+        rf = route_format(net, lb, iter_limit)
     )
 }
 
@@ -295,6 +304,9 @@ fn canonical_text(text: &str) -> String {
     if let Some(e) = resp.get("csv_error") {
         o.insert("csv_error".into(), e.clone());
     }
+    if let Some(e) = resp.get("PANIC") {
+        o.insert("PANIC".into(), e.clone());
+    }
     show_json(&Value::Object(o), true)
 }
 fn canonical(resp: &Value) -> String {
@@ -304,10 +316,16 @@ fn canonical(resp: &Value) -> String {
 struct Intern {
     ids: HashMap<String, i64>,
     texts: Vec<String>,
+    vals: HashMap<i64, Value>, // the first response seen with this canonical form (for the CSV record map)
 }
 impl Intern {
     fn new() -> Intern {
-        Intern { ids: HashMap::new(), texts: vec![] }
+        Intern { ids: HashMap::new(), texts: vec![], vals: HashMap::new() }
+    }
+    fn id_resp(&mut self, resp: &Value) -> i64 {
+        let i = self.id(canonical(resp));
+        self.vals.entry(i).or_insert_with(|| resp.clone());
+        i
     }
     fn id(&mut self, canon: String) -> i64 {
         if let Some(i) = self.ids.get(&canon) {
@@ -443,6 +461,11 @@ fn gen_query(r: &mut Rng, net: &Net, qid: usize) -> (Value, &'static str) {
         Value::Object(m)
     };
     let mut fam = fam;
+    if fam == "valid" && r.chance(1, 12) {
+        // origin == destination: a successful search with an EMPTY route
+        q["destination_vertex"] = q["origin_vertex"].clone();
+        fam = "same_vertex";
+    }
     if fam == "valid" && r.chance(1, 6) {
         q["state_features"] = sf(r);
         fam = "state_features";
@@ -644,6 +667,27 @@ struct Cfg {
     sink: bool,
     threads: usize,
     reps: usize,
+    /// file_flush_rate of the file sink (None = not set: the default, 1)
+    flush: Option<i64>,
+    /// file sink format: 0 newline-delimited JSON, 1 JSON array, 2 CSV
+    fmt: u8,
+}
+
+/// the CSV sink used by the stream: optional mappings only, so that formatting never rewrites a
+/// response (ResponseOutputFormat::format_response adds an error for a missing non-optional path)
+fn csv_format_json() -> Value {
+    json!({"type": "csv", "sorted": false, "mapping": {
+        "qid": {"optional": "request.qid"},
+        "o": {"optional": "request.origin_vertex"},
+        "d": {"optional": "request.destination_vertex"},
+        "cost": {"optional": "route.cost.total_cost"}}})
+}
+fn sink_format_json(fmt: u8) -> Value {
+    match fmt {
+        1 => json!({"type": "json", "newline_delimited": false}),
+        2 => csv_format_json(),
+        _ => json!({"type": "json", "newline_delimited": true}),
+    }
 }
 
 enum SRes {
@@ -676,6 +720,9 @@ impl Elems {
 }
 
 fn run_cfg(override_p: Option<usize>, discard: bool, sink_file: Option<&Path>) -> Value {
+    run_cfg_full(override_p, discard, sink_file, None, 0)
+}
+fn run_cfg_full(override_p: Option<usize>, discard: bool, sink_file: Option<&Path>, flush: Option<i64>, fmt: u8) -> Value {
     let mut o = Map::new();
     if let Some(p) = override_p {
         o.insert("parallelism".into(), json!(p));
@@ -686,10 +733,11 @@ fn run_cfg(override_p: Option<usize>, discard: bool, sink_file: Option<&Path>) -
     );
     match sink_file {
         Some(f) => {
-            o.insert(
-                "response_output_policy".into(),
-                json!({"type": "file", "filename": f.to_str().unwrap(), "format": {"type": "json", "newline_delimited": true}}),
-            );
+            let mut pol = json!({"type": "file", "filename": f.to_str().unwrap(), "format": sink_format_json(fmt)});
+            if let Some(n) = flush {
+                pol["file_flush_rate"] = json!(n);
+            }
+            o.insert("response_output_policy".into(), pol);
         }
         None => {
             o.insert("response_output_policy".into(), json!({"type": "none"}));
@@ -710,7 +758,7 @@ fn add_query_to_tables(app: &CompassApp, fresh: &dyn Fn() -> CompassApp, q: &Val
         let e1 = in_ops::package_error(&mut c, "query is not a JSON object");
         let mut c2 = q.clone();
         let e2 = in_ops::package_invariant_error(Some(&mut c2), None);
-        t.nonobj.insert(qid, (intern.id(canonical(&e1)), intern.id(canonical(&e2))));
+        t.nonobj.insert(qid, (intern.id_resp(&e1), intern.id_resp(&e2)));
         return false;
     }
     let mut cur: Vec<Value> = vec![q.clone()];
@@ -731,7 +779,7 @@ fn add_query_to_tables(app: &CompassApp, fresh: &dyn Fn() -> CompassApp, q: &Val
                 }),
                 Err(err) => {
                     let resp = in_ops::package_error(&mut v, err);
-                    t.stages[k].insert(id, SRes::Err(intern.id(canonical(&resp))));
+                    t.stages[k].insert(id, SRes::Err(intern.id_resp(&resp)));
                     if k > 0 {
                         later_err = true;
                     }
@@ -756,7 +804,7 @@ fn add_query_to_tables(app: &CompassApp, fresh: &dyn Fn() -> CompassApp, q: &Val
             let e1 = in_ops::package_error(&mut c1, "query is not a JSON object");
             let mut c2 = c.clone();
             let e2 = in_ops::package_invariant_error(Some(&mut c2), None);
-            t.nonobj.insert(id, (intern.id(canonical(&e1)), intern.id(canonical(&e2))));
+            t.nonobj.insert(id, (intern.id_resp(&e1), intern.id_resp(&e2)));
             continue;
         }
         if t.kids.contains_key(&id) {
@@ -767,7 +815,7 @@ fn add_query_to_tables(app: &CompassApp, fresh: &dyn Fn() -> CompassApp, q: &Val
             Err(e) => {
                 let mut c2 = c.clone();
                 let resp = in_ops::package_error(&mut c2, e);
-                t.kids.insert(id, (W::Bad, intern.id(canonical(&resp))));
+                t.kids.insert(id, (W::Bad, intern.id_resp(&resp)));
             }
             Ok(w) => {
                 // a query with its own state_features is answered by an application that has
@@ -779,9 +827,10 @@ fn add_query_to_tables(app: &CompassApp, fresh: &dyn Fn() -> CompassApp, q: &Val
                 } else {
                     app
                 };
-                let resp = run_single_query(&c, &a.search_orientation, &a.output_plugins, &a.search_app)
+                let resp = catch(std::panic::AssertUnwindSafe(|| run_single_query(&c, &a.search_orientation, &a.output_plugins, &a.search_app)))
+                    .unwrap_or_else(|_| Ok(json!({"request": c, "PANIC": "run_single_query panicked: one response expected"})))
                     .unwrap_or_else(|e| json!({"request": c, "error": format!("run_single_query Err {}", e)}));
-                t.kids.insert(id, (w.map(W::Num).unwrap_or(W::None), intern.id(canonical(&resp))));
+                t.kids.insert(id, (w.map(W::Num).unwrap_or(W::None), intern.id_resp(&resp)));
             }
         }
     }
@@ -856,7 +905,9 @@ fn build_tables(ctx: &mut Ctx, queries: &[Value], lb: bool, iter: bool, intern: 
         } else {
             app1
         };
-        a.run(vec![x.clone()], Some(&cfg1)).unwrap_or_else(|e| vec![json!({"request": x, "error": format!("run Err {}", e)})])
+        catch(std::panic::AssertUnwindSafe(|| a.run(vec![x.clone()], Some(&cfg1))))
+            .unwrap_or_else(|_| Ok(vec![json!({"request": x, "PANIC": "CompassApp::run panicked on this query alone: one response expected"})]))
+            .unwrap_or_else(|e| vec![json!({"request": x, "error": format!("run Err {}", e)})])
     };
     for (i, q) in queries.iter().enumerate() {
         let k = add_query_to_tables(app1, &fresh, q, &mut t, el, intern);
@@ -874,7 +925,7 @@ fn build_tables(ctx: &mut Ctx, queries: &[Value], lb: bool, iter: bool, intern: 
         if q.get("grid_search").is_none() && rs.len() != 1 {
             t.single_bad.push(i);
         }
-        t.alone.insert(t.qids[i], rs.iter().map(|r| intern.id(canonical(r))).collect());
+        t.alone.insert(t.qids[i], rs.iter().map(|r| intern.id_resp(r)).collect());
     }
     t
 }
@@ -899,7 +950,7 @@ fn coq_tables(t: &Tables) -> String {
 fn run_once(ctx: &mut Ctx, queries: &[Value], order: &[usize], cfg: &Cfg, sink_file: &Path, intern: &mut Intern) -> String {
     let _ = std::fs::remove_file(sink_file);
     let batch: Vec<Value> = order.iter().map(|i| queries[*i].clone()).collect();
-    let rc = run_cfg(cfg.p_run, cfg.discard, if cfg.sink { Some(sink_file) } else { None });
+    let rc = run_cfg_full(cfg.p_run, cfg.discard, if cfg.sink { Some(sink_file) } else { None }, cfg.flush, cfg.fmt);
     ctx.ensure_pool(cfg.threads);
     ctx.app(cfg.p_cfg, cfg.lb, cfg.iter);
     let app = &ctx.apps[&(cfg.p_cfg, cfg.lb, cfg.iter)];
@@ -909,10 +960,10 @@ fn run_once(ctx: &mut Ctx, queries: &[Value], order: &[usize], cfg: &Cfg, sink_f
         Err(_) => "Panic".to_string(),
         Ok(Err(e)) => format!("Err {}", err_class(&e)),
         Ok(Ok(rs)) => {
-            let ret: Vec<i64> = rs.iter().map(|r| intern.id(canonical(r))).collect();
+            let ret: Vec<i64> = rs.iter().map(|r| intern.id_resp(r)).collect();
             let wr = if cfg.sink {
                 let text = std::fs::read_to_string(sink_file).unwrap_or_default();
-                let mut ids: Vec<i64> = text.lines().filter(|l| !l.trim().is_empty()).map(|l| intern.id(canonical_text(l))).collect();
+                let mut ids: Vec<i64> = read_sink_records(&text, cfg.fmt, intern);
                 ids.sort();
                 show_list(&ids, |i| i.to_string())
             } else {
@@ -920,6 +971,42 @@ fn run_once(ctx: &mut Ctx, queries: &[Value], order: &[usize], cfg: &Cfg, sink_f
             };
             format!("Ok ret={} wr={}", show_list(&ret, |i| i.to_string()), wr)
         }
+    }
+}
+
+/// the records of a sink file (run never calls ResponseSink::close, so a JSON array file has no
+/// closing bracket): ids of the canonical responses (JSON sinks) or of the rows (CSV)
+fn read_sink_records(text: &str, fmt: u8, intern: &mut Intern) -> Vec<i64> {
+    match fmt {
+        2 => text.lines().skip(1).filter(|l| !l.is_empty()).map(|l| intern.id(format!("csvrow:{}", l))).collect(),
+        1 => {
+            // "[\n" then pretty-printed objects one after the other
+            let body = text.trim_start().strip_prefix('[').unwrap_or(text);
+            let mut out = vec![];
+            let mut pos = 0usize;
+            loop {
+                let rest = &body[pos..];
+                let skipped = rest.len() - rest.trim_start_matches(|c: char| c.is_whitespace() || c == ',').len();
+                pos += skipped;
+                if pos >= body.len() || body[pos..].starts_with(']') {
+                    break;
+                }
+                let mut it = serde_json::Deserializer::from_str(&body[pos..]).into_iter::<Value>();
+                match it.next() {
+                    Some(Ok(_)) => {
+                        let end = it.byte_offset();
+                        out.push(intern.id(canonical_text(&body[pos..pos + end])));
+                        pos += end;
+                    }
+                    _ => {
+                        out.push(intern.id(format!("<unparsable sink content at byte {}>", pos)));
+                        break;
+                    }
+                }
+            }
+            out
+        }
+        _ => text.lines().filter(|l| !l.trim().is_empty()).map(|l| intern.id(canonical_text(l))).collect(),
     }
 }
 
@@ -971,10 +1058,27 @@ fn batch_case(
     let tbl = coq_tables(tables);
     let alone_coq = coq_list(&tables.alone.iter().collect::<Vec<_>>(), |(i, l)| format!("({}, {})", coq_z(**i as i128), coq_zl(l)));
     let (impl_ok, impl_ret, impl_wr) = parse_payload(&payload);
+    // CSV sink: the record the REAL format_response makes of every known response
+    let rowmap: Vec<(i64, i64)> = if cfg.sink && cfg.fmt == 2 {
+        use routee_compass::app::compass::response::response_output_format::ResponseOutputFormat;
+        let f: ResponseOutputFormat = serde_json::from_value(csv_format_json()).expect("csv format");
+        let mut known: Vec<(i64, Value)> = intern.vals.iter().map(|(k, v)| (*k, v.clone())).collect();
+        known.sort_by_key(|(k, _)| *k);
+        known
+            .into_iter()
+            .map(|(k, mut v)| {
+                let row = f.format_response(&mut v).unwrap_or_else(|e| format!("<format error {}>", e));
+                (k, intern.id(format!("csvrow:{}", row)))
+            })
+            .collect()
+    } else {
+        vec![]
+    };
+    let rowmap_coq = coq_list(&rowmap, |(a, b)| format!("({}, {})", coq_z(*a as i128), coq_z(*b as i128)));
     // under the discard policy without a sink the successful responses are observable nowhere
     let spec_applies = !(cfg.discard && !cfg.sink);
     let mut terms = vec![format!(
-        "batch_line {} {} {} {} {} {} {} {}",
+        "batch_line {} {} {} {} {} {} {} {} {}",
         id,
         coq_bool(cfg.discard),
         coq_bool(cfg.sink),
@@ -982,11 +1086,12 @@ fn batch_case(
         coq_nat(p_run_eff),
         tbl,
         coq_zl(&order_z),
-        coq_string(&flags)
+        coq_string(&flags),
+        rowmap_coq
     )];
     if spec_applies {
         terms.push(format!(
-            "batch_spec_line {} {} {} {} {} {} {} {} {}",
+            "batch_spec_line {} {} {} {} {} {} {} {} {} {}",
             id,
             coq_bool(cfg.discard),
             coq_bool(cfg.sink),
@@ -995,7 +1100,8 @@ fn batch_case(
             coq_zl(&order_z),
             coq_zl(&impl_ret),
             coq_zl(&impl_wr),
-            coq_bool(impl_ok)
+            coq_bool(impl_ok),
+            rowmap_coq
         ));
     }
     // histogram
@@ -1007,6 +1113,13 @@ fn batch_case(
     st.count(if cfg.iter { "termination:iterations" } else { "termination:default" });
     st.count(if cfg.discard { "policy:discard" } else { "policy:persist" });
     st.count(if cfg.sink { "sink:file" } else { "sink:none" });
+    if cfg.sink {
+        st.count(["sink_format:ndjson", "sink_format:json", "sink_format:csv"][cfg.fmt.min(2) as usize]);
+        st.count(&format!("file_flush_rate:{}", match cfg.flush { None => "default".to_string(), Some(n) if n > 100 => ">batch".to_string(), Some(n) => n.to_string() }));
+    }
+    if payload == "Panic" {
+        st.count("outcome:panic");
+    }
     st.count(&format!("threads:{}", cfg.threads));
     let mut seen = std::collections::BTreeSet::new();
     for i in order {
@@ -1040,7 +1153,7 @@ fn batch_case(
     let desc = json!({
         "id": id, "family": family, "net_seed": net_seed, "queries": queries, "fams": fams, "order": order,
         "p_cfg": cfg.p_cfg, "p_run": cfg.p_run, "lb": cfg.lb, "iter": cfg.iter, "discard": cfg.discard,
-        "sink": cfg.sink, "threads": cfg.threads, "reps": cfg.reps,
+        "sink": cfg.sink, "threads": cfg.threads, "reps": cfg.reps, "flush": cfg.flush, "fmt": cfg.fmt,
         "queries_in_class_K": k_queries, "flags": flags.trim(),
     });
     if st.full {
@@ -1140,6 +1253,17 @@ fn gen_cfg(r: &mut Rng, n: usize) -> Cfg {
         sink: if discard { r.chance(9, 10) } else { r.chance(1, 2) },
         threads: *r.pick(&[1usize, 2, 4, 16, 16]),
         reps: 3,
+        flush: match r.below(10) {
+            0..=2 => None,
+            3 => Some(1),
+            4 => Some(2),
+            5 => Some(3),
+            6 => Some(4),
+            7 => Some(7),
+            8 => Some(100),
+            _ => Some(n as i64 * 5 + 11), // larger than any number of responses of the batch
+        },
+        fmt: *r.pick(&[0u8, 0, 0, 1, 2]),
     }
 }
 
@@ -1183,6 +1307,31 @@ fn repeat_case(st: &mut Stream, ctx: &mut Ctx, net_seed: u64, q: &Value, runs: u
     );
 }
 
+fn parse_batch_desc(c: &Value) -> (Vec<Value>, Vec<&'static str>, Vec<usize>, Cfg) {
+    let queries: Vec<Value> = c["queries"].as_array().unwrap().clone();
+    let fams: Vec<&'static str> = match c["fams"].as_array() {
+        Some(a) => a.iter().map(|x| leak(x.as_str().unwrap_or("?"))).collect(),
+        None => queries.iter().map(|_| "corpus").collect(),
+    };
+    let order: Vec<usize> = match c["order"].as_array() {
+        Some(a) => a.iter().map(|x| x.as_u64().unwrap() as usize).collect(),
+        None => (0..queries.len()).collect(),
+    };
+    let cfg = Cfg {
+        p_cfg: c["p_cfg"].as_u64().unwrap_or(2) as usize,
+        p_run: c["p_run"].as_u64().map(|x| x as usize),
+        lb: c["lb"].as_bool().unwrap_or(false),
+        iter: c["iter"].as_bool().unwrap_or(false),
+        discard: c["discard"].as_bool().unwrap_or(false),
+        sink: c["sink"].as_bool().unwrap_or(true),
+        threads: c["threads"].as_u64().unwrap_or(4) as usize,
+        reps: c["reps"].as_u64().unwrap_or(3) as usize,
+        flush: c["flush"].as_i64(),
+        fmt: c["fmt"].as_u64().unwrap_or(0) as u8,
+    };
+    (queries, fams, order, cfg)
+}
+
 fn corpus_dir(a: &Args) -> Option<PathBuf> {
     let mut it = a.extra.iter();
     while let Some(x) = it.next() {
@@ -1215,20 +1364,7 @@ fn stream_batch(a: &Args, energy: bool, cache: bool) {
             st.finish();
             return;
         }
-        let queries: Vec<Value> = c["queries"].as_array().unwrap().clone();
-        let fams_owned: Vec<String> = c["fams"].as_array().unwrap().iter().map(|x| x.as_str().unwrap().to_string()).collect();
-        let fams: Vec<&str> = fams_owned.iter().map(|s| leak(s)).collect();
-        let order: Vec<usize> = c["order"].as_array().unwrap().iter().map(|x| x.as_u64().unwrap() as usize).collect();
-        let cfg = Cfg {
-            p_cfg: c["p_cfg"].as_u64().unwrap() as usize,
-            p_run: c["p_run"].as_u64().map(|x| x as usize),
-            lb: c["lb"].as_bool().unwrap(),
-            iter: c["iter"].as_bool().unwrap(),
-            discard: c["discard"].as_bool().unwrap(),
-            sink: c["sink"].as_bool().unwrap(),
-            threads: c["threads"].as_u64().unwrap() as usize,
-            reps: c["reps"].as_u64().unwrap_or(3) as usize,
-        };
+        let (queries, fams, order, cfg) = parse_batch_desc(c);
         let mut cache = HashMap::new();
         batch_case(&mut st, &mut ctx, net_seed, &queries, &fams, &order, &cfg, &mut cache, "replay");
         st.finish();
@@ -1250,13 +1386,18 @@ fn stream_batch(a: &Args, energy: bool, cache: bool) {
             if c["kind"] == json!("expansion") && !energy {
                 expansion_case(&mut st, &mut ctx, net_seed, &c["query"], c["lb"].as_bool().unwrap_or(true), c["iter"].as_bool().unwrap_or(false), "corpus");
             }
+            if c["kind"] == json!("batch") && !energy {
+                let (queries, fams, order, cfg) = parse_batch_desc(c);
+                let mut cache = HashMap::new();
+                batch_case(&mut st, &mut ctx, net_seed, &queries, &fams, &order, &cfg, &mut cache, "corpus");
+            }
             if c["kind"] == json!("repeat") && energy {
                 repeat_case(&mut st, &mut ctx, net_seed, &c["query"], c["runs"].as_u64().unwrap_or(300) as usize, "corpus");
             }
         }
     }
     let mut expansions_done: std::collections::HashSet<(String, bool, bool)> = Default::default();
-    let base = |p_cfg: usize, p_run: Option<usize>| Cfg { p_cfg, p_run, lb: false, iter: false, discard: false, sink: true, threads: 16, reps: 2 };
+    let base = |p_cfg: usize, p_run: Option<usize>| Cfg { p_cfg, p_run, lb: false, iter: false, discard: false, sink: true, threads: 16, reps: 2, flush: None, fmt: 0 };
     // ---- deterministic boundary families: sizes around the parallelism (chunk arithmetic)
     {
         let mut r = rng.fork();
@@ -1324,7 +1465,7 @@ fn stream_batch(a: &Args, energy: bool, cache: bool) {
             let order: Vec<usize> = (0..qs.len()).collect();
             let mut cache = HashMap::new();
             for (lb, iter, discard) in [(false, false, false), (true, false, false), (false, true, true), (true, true, false)] {
-                let cfg = Cfg { p_cfg: 2, p_run: Some(3), lb, iter, discard, sink: true, threads: 4, reps: 2 };
+                let cfg = Cfg { p_cfg: 2, p_run: Some(3), lb, iter, discard, sink: true, threads: 4, reps: 2, flush: None, fmt: 0 };
                 batch_case(&mut st, &mut ctx, net_seed, &qs, &fs, &order, &cfg, &mut cache, "one_failing_kind");
             }
             if b.get("grid_search").is_some() {
@@ -1370,8 +1511,36 @@ fn stream_batch(a: &Args, energy: bool, cache: bool) {
                 if st.next_id() >= a.n {
                     break;
                 }
-                let cfg = Cfg { p_cfg, p_run, lb, iter: false, discard: j % 4 == 3, sink: true, threads: *[1usize, 4, 16].get(j % 3).unwrap(), reps: 2 };
+                let cfg = Cfg { p_cfg, p_run, lb, iter: false, discard: j % 4 == 3, sink: true, threads: *[1usize, 4, 16].get(j % 3).unwrap(), reps: 2, flush: None, fmt: 0 };
                 batch_case(&mut st, &mut ctx, net_seed, &qs, &fs, order, &cfg, &mut cache, "state_features_and_object_grids");
+            }
+        }
+    }
+    // ---- file sink: every format x file_flush_rate x both policies, response counts that are and
+    //      are not multiples of the rate, batches smaller than the rate; an origin == destination
+    //      query (empty route) sits in every batch, under every application variant (route format)
+    {
+        let mk = |i: usize, o: usize, d: usize| -> Value {
+            let mut q = json!({"origin_vertex": o, "destination_vertex": d, "qid": i, "query_weight_estimate": 1 + i % 3});
+            if energy {
+                q["model_name"] = json!("Toyota_Camry");
+            }
+            q
+        };
+        let qs: Vec<Value> = (0..13).map(|i| if i == 2 { mk(i, 7, 7) } else { mk(i, i, 24 - i) }).collect();
+        let fs: Vec<&'static str> = (0..13).map(|i| if i == 2 { "same_vertex" } else { "valid" }).collect();
+        let mut cache = HashMap::new();
+        let mut j = 0usize;
+        for n in [1usize, 3, 4, 6, 8, 10, 13] {
+            for flush in [None, Some(1i64), Some(2), Some(3), Some(4), Some(7), Some(100)] {
+                if st.next_id() >= a.n + 60 {
+                    break;
+                }
+                j += 1;
+                let order: Vec<usize> = (0..n).collect();
+                let (lb, iter) = [(false, false), (true, false), (false, true), (true, true)][j % 4];
+                let cfg = Cfg { p_cfg: 2, p_run: Some(1 + j % 4), lb, iter, discard: j % 2 == 0, sink: true, threads: 4, reps: 2, flush, fmt: (j % 3) as u8 };
+                batch_case(&mut st, &mut ctx, net_seed, &qs, &fs, &order, &cfg, &mut cache, "sink_flush_rate");
             }
         }
     }
@@ -1430,6 +1599,7 @@ fn build_energy_app(net: &Net, p_cfg: usize, lb: bool, iter: bool, cached: bool,
         .replace("parallelism = 1\n", &format!("parallelism = {}\n", p_cfg))
         .replace("input_plugins = []", &format!("input_plugins = [\n  {{ type = \"grid_search\" }}{}\n]", lbp))
         .replace("distance = 0\ntime = 0\nenergy_liquid = 1", "distance = 1\ntime = 1\nenergy_liquid = 1");
+    toml = toml.replace("route = \"edge_id\"", &format!("route = \"{}\"", route_format(net, lb, iter)));
     if let Some((ps, _)) = grid {
         // on-grid speed and grade tables (the reference application reads the same tables)
         let k = if ps == 0 { 0 } else { 1 };
